@@ -27,6 +27,8 @@ CLAIMED = {
          "location level; shapes bounded as C02"),
  "C11": ("§4 C11", "each of 14 library operations is executed on sequences whose residue bytes are symbolic and whose slices have every aliasing shape (len==cap, spare capacity, sub-slice of a larger caller-owned buffer; feature tables with spare slots); a deep snapshot of everything the caller can observe (whole backing buffer, keys, location atoms, qualifier strings) is asserted unchanged after the call and after a second call, and the first result is asserted unchanged by the second call. The engine's slice model implements append's in-place rule, so aliasing writes are visible exactly as at run time.",
          "sequence lengths 4/2, two host features; quick uses concrete coordinates; data races and reflection-based observers are outside"),
+ "C12": ("§4 C12", "Repair is executed on tables of 2-3 same/different-class features with symbolic coordinates and partial flags on either strand (incl. joins): no panic, idempotent, unchanged without an abutting 3'/5'-partial pair (any abutting pair for source), merges only with such a pair, per-class coverage unchanged; and on slice;...;concat;repair round trips with 1-2 symbolic cut positions restoring class-unique features exactly.",
+         "restoration is asserted for cuts that fall strictly inside a part or miss the feature, and for joins with ascending disjoint parts (see DESIGN §6 for why the remaining cases are not decidable from the table); table sizes bounded"),
  "C16": ("§4 C16", "fromOriginLength(toOriginLength(n))=n, strict monotonicity and an independently written layout formula are proved for every n in [0,4e18] in one query each; NewOrigin/Bytes layout is executed on symbolic residues for bounded lengths.",
          "layout harness lengths bounded as stated in the evidence"),
  "C17": ("§4 C17", "FastaWriter/wrap.Force/FastaParser/Scanner are executed on records with symbolic descriptions and symbolic residues (printable minus '>') at lengths around the 70-column boundaries, 1-3 records per stream: same count, descriptions and residues; GenBank->FASTA conversion keeps residues and builds the documented description (also for slices).",
